@@ -22,6 +22,7 @@ BOUNDS = {
     "quick": "shapes m,n<=3 (square only for the complex adjoint), all positions x 4 units, multiplicativity on all basis pairs of shapes<=2 and pattern pairs <=3, 8 bit-pattern classes",
     "thorough": "same with shapes<=5",
 }
+THOROUGH_STREAMS = 8
 WALL_BUDGET = {"quick": 240, "thorough": 1200}
 ASSUMPTIONS = ["the oracle embedding is built column by column from the Hamilton table and is itself verified to be a *-homomorphism on all signed-unit pairs (oracle.selftest)"]
 
